@@ -357,9 +357,17 @@ def df_case(rec, seedt):
                        "c": rng.integers(0, 100, size=N), "label": ["x"] * N})
     cols = [None, ["a"], ["a", "c"], ["b", "label"]][int(rng.integers(0, 4))]
     inplace = bool(rng.random() < 0.5)
+    clash = bool(rng.random() < 0.2)
+    if clash:
+        # a frame that already carries an "a_shifted" column (the output of an earlier call, or the
+        # caller's own), selected together with "a": every selected column is shifted from the
+        # INPUT frame's data
+        df["a_shifted"] = rng.standard_normal(N) * 3.0
+        cols = [None, ["a", "a_shifted"], ["a_shifted", "a"]][int(rng.integers(0, 3))]
+        rec.count("df_cases_with_suffix_clash")
     trunc = [None, True, 3, 0][int(rng.integers(0, 4))]
     desc = {"kind": "df", "seed": list(seedt), "N": N, "fs": fs, "seconds": seconds,
-            "columns": cols, "inplace": inplace, "truncate": trunc}
+            "columns": cols, "inplace": inplace, "truncate": trunc, "clash": clash}
     rec.case(desc, nontrivial=True)
     rec.count("df_cases")
     # index flavours a caller's frame realistically has (slice that keeps its labels, float time
@@ -421,14 +429,20 @@ def df_case(rec, seedt):
                     rec.violation("df-wrong-shift", f"column {c}: sample {n} is not the value at "
                                                     f"n + seconds*fs")
                     break
-            if not inplace and not np.array_equal(out[c].to_numpy(), df0[c].to_numpy()[sl]):
+            overwritten = (not inplace) and any(f"{o}_shifted" == c for o in sel
+                                                 if df[o].dtype.kind in "biufc")
+            if not inplace and not overwritten \
+                    and not np.array_equal(out[c].to_numpy(), df0[c].to_numpy()[sl]):
                 rec.violation("df-original-column-changed", f"column {c} changed although "
                                                             f"inplace=False")
         else:
-            if c in out.columns and not np.array_equal(out[c].to_numpy(), df0[c].to_numpy()[sl]):
+            overwritten = (not inplace) and any(f"{o}_shifted" == c for o in sel
+                                                 if o in df.columns and df[o].dtype.kind in "biufc")
+            if c in out.columns and not overwritten \
+                    and not np.array_equal(out[c].to_numpy(), df0[c].to_numpy()[sl]):
                 rec.violation("df-unselected-column-touched", f"column {c} was not selected (or is "
                                                               f"not numeric) but changed")
-            if not inplace and f"{c}_shifted" in out.columns:
+            if not inplace and f"{c}_shifted" in out.columns and f"{c}_shifted" not in df.columns:
                 rec.violation("df-unselected-column-touched", f"column {c}_shifted created for an "
                                                               f"unselected / non-numeric column")
 
